@@ -6500,7 +6500,7 @@ impl Nudge {
         let mut day_delta = NoUnits::N::<0>();
         let rounded_relative_end =
             if beyond_day_nanos == C(0) || beyond_day_nanos.signum() == sign {
-                day_delta += C(1);
+                day_delta += sign;
                 rounded_time_nanos = mode.round_by_unit_in_nanoseconds(
                     beyond_day_nanos,
                     smallest,
